@@ -68,20 +68,23 @@ class Check:
         return ('corr', 'trace differs at op %d (%s): impl "%s" vs model "%s"' %
                 (i, ops[i] if i < len(ops) else '?', get(ctr, i), get(mtr, i)), None)
 
+    def removable(self, line):
+        return not line.startswith(('hash ', 'param ', 'mod '))
+
     def shrink(self, case, ctx, kind):
-        """delta-debug the op list while the verdict kind stays the same"""
+        """delta-debug the removable lines while the verdict kind stays the same"""
         cid, header, ops = case
-        fixed = [o for o in ops if o.startswith('hash ') or o.startswith('param ') or o.startswith('mod ')]
-        body = [o for o in ops if o not in fixed]
-        n = 2
-        rounds = 0
-        while len(body) >= 2 and rounds < 40:
+        keep = list(range(len(ops)))
+        rem = [i for i in keep if self.removable(ops[i])]
+        n = 2; rounds = 0
+        while len(rem) >= 2 and rounds < 40:
             rounds += 1
-            chunk = max(1, len(body) // n)
+            chunk = max(1, len(rem) // n)
             cands = []
-            for i in range(0, len(body), chunk):
-                cands.append(body[:i] + body[i + chunk:])
-            cases = [('s%d' % j, header, fixed + c) for j, c in enumerate(cands)]
+            for i in range(0, len(rem), chunk):
+                drop = set(rem[i:i + chunk])
+                cands.append([j for j in keep if j not in drop])
+            cases = [('s%d' % j, header, [ops[q] for q in c]) for j, c in enumerate(cands)]
             c, m = self.run_both(cases, ctx, 'shrink')
             hit = None
             for j, cand in enumerate(cands):
@@ -89,11 +92,11 @@ class Check:
                 if k[0] == kind:
                     hit = cand; break
             if hit is not None:
-                body = hit; n = max(n - 1, 2)
+                keep = hit; rem = [i for i in keep if self.removable(ops[i])]; n = max(n - 1, 2)
             else:
                 if chunk == 1: break
-                n = min(len(body), n * 2)
-        return (cid, header, fixed + body)
+                n = min(len(rem), n * 2)
+        return (cid, header, [ops[i] for i in keep])
 
     def write_replay(self, name, case, ctr, mtr, verdict, extra=''):
         d = os.path.join(OUT, self.pid); os.makedirs(d, exist_ok=True)
